@@ -56,7 +56,7 @@ def friendly_attrs(prog):
     error types are marked (Kotlin insists), every opaque names its default constructor (demo_gen insists)."""
     err_types = set()
     for t, m in prog.methods():
-        if m.ret[0] == "result" and m.ret[2][0] in ("enum", "struct", "obox"):
+        if m.ret[0] == "result" and m.ret[2][0] in ("enum", "struct", "obox", "oref"):
             err_types.add(m.ret[2][1])
     for t in prog.types():
         if t.name in err_types and "#[diplomat::attr(auto, error)]" not in t.attrs:
@@ -218,3 +218,43 @@ def reference_graph_features(prog, rng, keyword_fields=True, namespaces=True, re
             for m in t.methods:
                 if m.name != "make" and rng.random() < 0.15:
                     m.attrs.append('#[diplomat::attr(%s, rename = "%s")]' % (rng.choice(["*", "cpp", "js"]), rng.choice(["renamed_" + m.name, "new", "delete", "class", "default"])))
+
+
+TRAIT_PRIMS = ["i32", "u8", "u64", "f64", "bool", "i16", "usize"]
+
+
+def add_traits(prog, rng, backend, n=(1, 2)):
+    """For backends whose attr_support() declares `traits` (C and Kotlin today): 1-2 traits with 1-3 methods over primitives /
+    enums / lifetime-free structs, and opaque methods that consume `impl Trait` (alone or next to other parameters).
+    Returns the number of traits added."""
+    if not profiles.support(backend).get("traits"):
+        return 0
+    opaques = [t for t in prog.types() if t.kind == "opaque" and not t.lifetimes]
+    if not opaques:
+        return 0
+    enums = [t for t in prog.types() if t.kind == "enum"]
+    count = rng.randint(*n)
+    for k in range(count):
+        host = rng.choice(opaques)
+        mod = [m for m in prog.modules if host in m.items][0]
+        local = lambda t: t in mod.items or ("crate::%s::%s" % ([m.name for m in prog.modules if t in m.items][0], t.name)) in getattr(mod, "uses", [])
+        lines = []
+        for j in range(rng.randint(1, 3)):
+            args = []
+            for a in range(rng.randint(0, 3)):
+                c = rng.random()
+                if c < 0.8 or not [e for e in enums if local(e)]:
+                    args.append("a%d: %s" % (a, rng.choice(TRAIT_PRIMS)))
+                else:
+                    args.append("a%d: %s" % (a, rng.choice([e for e in enums if local(e)]).name))
+            ret = "" if rng.random() < 0.3 else " -> " + rng.choice(TRAIT_PRIMS)
+            lines.append("        fn tm%d(&self%s)%s;" % (j, "".join(", " + a for a in args), ret))
+        name = "VfTr%d%s" % (k, host.name)
+        mod.extra_src += "    pub trait %s {\n%s\n    }\n" % (name, "\n".join(lines))
+        params = [("t", ("raw", "impl " + name))]
+        if rng.random() < 0.5:
+            params.insert(rng.randrange(2), ("n", ("prim", rng.choice(TRAIT_PRIMS))))
+        m = spec.Method("use_tr%d" % k, rng.choice([("ref", None), None]), params, rng.choice([("prim", "i32"), ("unit",)]))
+        m.owner = host
+        host.methods.append(m)
+    return count
